@@ -735,7 +735,14 @@ def h_place(ctx, placer, dims=(2, 1), nv=2, nres=1, dead=None, exc=None,
         kwargs["kernel_kwargs"] = {"no_warn": True}
         kwargs["effort"] = effort
         if stop and effort:
-            kwargs["on_temperature_change"] = lambda *a: False
+            # stop == n: the callback lets n - 1 temperatures pass
+            left = [int(stop) - 1]
+
+            def on_change(*a):
+                ctx.witness("callback")
+                left[0] -= 1
+                return left[0] >= 0
+            kwargs["on_temperature_change"] = on_change
 
     try:
         with _det_merged():
@@ -1046,6 +1053,14 @@ def units(tier, seed):
     add("sa", "C kernel 2x2 dead, fixed, merged, reserved", dims=(2, 2),
         nv=3, nres=1, dead=(1, 1), nets="fan", cons=("loc", "same12", "resg"),
         effort=0.1, ck=True, wit=CK, split=7)
+
+    # an anneal whose callback is called (and lets a temperature pass) with
+    # a same-chip group among the movable vertices
+    for k in range(3):
+        add("sa", "anneal, callback called twice, same-chip group 3x2 "
+            "Random(%d)" % (seed + k), dims=(3, 2), nv=5, nres=1,
+            nets="chain", cons=("same12",), effort=0.5, stop=2,
+            rng=seed + k, nowrap=True, wit=("placed",), split=4)
 
     # the annealer: inductive step
     ALL = ("accepted", "not-accepted", "moved", "reverted")
